@@ -82,7 +82,7 @@ func run(c Case, k *ev.Case) *ev.Failure {
 		w.Dispose()
 		return ev.Failf("harness", "connect: %v", err)
 	}
-	env.HangLimit = 8 * time.Second
+	env.SetHangLimit(8 * time.Second)
 	env.Run(c.Prefix)
 	// pending calls
 	var pwg sync.WaitGroup
@@ -185,7 +185,7 @@ func run(c Case, k *ev.Case) *ev.Failure {
 			}
 		}
 	}
-	env.HangLimit = promptness
+	env.SetHangLimit(promptness)
 	for i, p := range battery {
 		// streams closed a moment ago finish their teardown asynchronously: the statement speaks about calls made after Close returned
 		r := env.Do(200, i, p.op)
@@ -266,7 +266,7 @@ func run(c Case, k *ev.Case) *ev.Failure {
 	}
 	if !connClosed {
 		// make the connection go away so that the census below is meaningful
-		env.HangLimit = 5 * time.Second
+		env.SetHangLimit(5 * time.Second)
 		env.Do(400, 0, scn.Op{Kind: "conn-close", CtxMs: 1000})
 	}
 	// 2. wire silence after Disconnect, no reconnect
